@@ -1,11 +1,23 @@
 """C17 — errors can always be shown and point at the line that caused them."""
-import json, os
+import json, os, shutil
 from . import core, suites
+from .c04 import ops_correspondence
 
 
 def check(res, thorough):
-    ok_t, ok_b, ok_h = core.prepare(res, "AscaVerif.Props.C17", thorough=thorough, need_driver=False)
+    ok_t, ok_b, ok_h = core.prepare(res, "AscaVerif.Props.C17", thorough=thorough, extra_props=["AscaVerif.Props.C17Lex"])
     tier = "thorough" if thorough else "quick"
+    if ok_h and os.path.exists(core.DRIVER_BIN):
+        scratch = core.scratch_dir("c17")
+        try:
+            tv = 0
+            for cmd, minops in (("lex-ops", 30000), ("parse-ops", 30000)):
+                st2, _, _ = ops_correspondence(res, scratch, cmd, tier, cmd, minops, extra_args=[str(res.seed)])
+                res.coverage[cmd] = st2
+                tv += st2.get(cmd.split("-")[0] + ".ops", 0)
+            res.coverage["traces_validated_against_impl"] = tv
+        finally:
+            shutil.rmtree(scratch, ignore_errors=True)
     if ok_h:
         os.environ["NO_COLOR"] = "1"
         core.ENV["NO_COLOR"] = "1"
@@ -25,7 +37,8 @@ def check(res, thorough):
                 "a syntax fault (one of 25 token-level mutations of a generated rule) or one of 32 runtime-fault rules; the error returned by run is formatted under "
                 "catch_unwind, the `@ Rule g, Line l` it prints is compared with the planted position, the caret columns with [0, len(line)]; plus one bad alias line "
                 "and one bad word; non-trivial = the message shows a rule line")
-    res.assumptions = ["colouring and message wording are not judged", "the theorems cover the formatter arithmetic only; that produced positions are well placed is decided by this search"]
+    res.assumptions = ["colouring and message wording are not judged", "theorems: the formatter arithmetic, and that every LEXER error is well placed (Props/C17Lex); for parser and interpreter errors well-placedness is decided by this search, "
+                       "with the parser model's error spans compared with the implementation's on every generated line (parse-ops)"]
     return res.finish()
 
 
